@@ -19,6 +19,7 @@ length-prefixed; matrices row-major as one list; `sweep` = 0 forward, 1 backward
 -/
 import Pyiga.Proto
 import Pyiga.Model.Relax
+import Pyiga.Model.LocalMG
 import Pyiga.Model.RatVec
 
 open Pyiga Pyiga.Proto Pyiga.Relax Pyiga.RatVec
@@ -79,18 +80,9 @@ structure MGData where
   smoother : Nat
   steps : Nat
 
-/-- `As = [A]; for P in reversed(Ps): As.append(P.T @ As[-1] @ P); As.reverse()` -/
+/-- `As = [A]; for P in reversed(Ps): As.append(P.T @ As[-1] @ P); As.reverse()` (model: `galerkinChain`) -/
 def galerkin (A : Mat) (Ps : List Mat) (sizes : List Nat) : List Mat :=
-  let rec go : List (Mat × Nat × Nat) → Mat → List Mat → List Mat
-    | [], _, acc => acc
-    | (P, nf, nc) :: rest, Af, acc =>
-      let AP := matMul Af P nc
-      let Ac := matMul (transpose nc P) AP nc
-      let _ := nf
-      go rest Ac (Ac :: acc)
-  let L := sizes.length
-  let trip := (List.range (L - 1)).reverse.map (fun l => (Ps.getD l [], sizes.getD (l + 1) 0, sizes.getD l 0))
-  go trip A [A]
+  galerkinChain (fun l => sizes.getD l 0) (fun l => Ps.getD l []) A (sizes.length - 1)
 
 def subMat (A : Mat) (ind : List Nat) : Mat := ind.map (fun i => ind.map (fun j => (A.getD i []).getD j 0))
 def gather (v : Vec) (ind : List Nat) : List Rat := ind.map (fun i => v.d.getD i 0)
@@ -101,36 +93,20 @@ def scatter (n : Nat) (v : Vec) (ind : List Nat) (vals : List Rat) (add : Bool) 
     | some k => (if add then v.d.getD i 0 else 0) + vals.getD k 0
     | none => v.d.getD i 0)⟩
 
-def mgSmooth (D : MGData) (post : Bool) (lv : Nat) (x f : Vec) : Vec :=
-  let n := D.sizes.getD lv 0
-  let A := D.As.getD lv []
-  let ind := D.inds.getD lv []
-  let gsrun (sw : Sweep) : Vec :=
-    ⟨gaussSeidel (relaxCSR n (csrOfDense A) (fnOf (pad n f))) n (some ind) D.steps sw (pad n x)⟩
-  match D.smoother with
-  | 0 => gsrun (if post then .backward else .forward)
-  | 1 => gsrun .forward
-  | 2 => gsrun .backward
-  | 3 => gsrun .symmetric
-  | _ =>
-    if post then ⟨pad n x⟩ else
-      let xp : Vec := ⟨pad n x⟩
-      let r := (⟨pad n f⟩ : Vec) - matVec A xp
-      let c := (solve (subMat A ind) (gather r ind)).getD (ind.map (fun _ => 0))
-      scatter n xp ind c true
-
-def mgSolve0 (D : MGData) (x f : Vec) : Vec :=
-  let n := D.sizes.getD 0 0
-  let A := D.As.getD 0 []
-  let ind := D.inds.getD 0 []
-  let c := (solve (subMat A ind) (gather ⟨pad n f⟩ ind)).getD (ind.map (fun _ => 0))
-  scatter n ⟨pad n x⟩ ind c false
+/-- the modelled `local_mg_step` (`Model/LocalMG.lean`) over `Rat`; `Bs[lv]` = exact Gauss-Jordan -/
+def mgSetup (D : MGData) : MGSetup Rat :=
+  { top := D.L - 1,
+    size := fun lv => D.sizes.getD lv 0,
+    A := fun lv => matFn (D.As.getD lv []),
+    P := fun lv => matFn (D.Ps.getD lv []),
+    ind := fun lv => D.inds.getD lv [],
+    smoother := D.smoother,
+    steps := D.steps,
+    subSolve := fun lv rhs =>
+      (solve (subMat (D.As.getD lv []) (D.inds.getD lv [])) rhs).getD (rhs.map (fun _ => 0)) }
 
 def mgCycle (D : MGData) (x f : Vec) : Vec :=
-  mgStep (fun lv v => matVec (D.As.getD lv []) ⟨pad (D.sizes.getD lv 0) v⟩)
-    (fun lv v => matVec (D.Ps.getD lv []) ⟨pad (D.sizes.getD lv 0) v⟩)
-    (fun lv v => matVec (transpose (D.sizes.getD lv 0) (D.Ps.getD lv [])) ⟨pad (D.sizes.getD (lv + 1) 0) v⟩)
-    (mgSmooth D false) (mgSmooth D true) (mgSolve0 D) (D.L - 1) x f
+  ⟨(localMgStep (mgSetup D) ⟨x.d⟩ ⟨f.d⟩).d⟩
 
 def mgSingular (D : MGData) : Bool :=
   let lvls := if D.smoother == 4 then List.range D.L else [0]
